@@ -390,14 +390,26 @@ func sortHostsReverseHostPort(hosts []string) []string {
 	// Sort by the reversed names but keep the hosts as they are since
 	// reversing a name twice does not always return the original, e.g.
 	// ":1234" becomes "[:1234]:1234" and "foo.com:" becomes "foo.com".
-	rev := make(map[string]string, len(hosts))
+	//
+	// The reversed host names are compared first and the ports only when
+	// the host names are equal. Comparing the joined "host:port" strings
+	// lets the ':' in front of the port take part in the comparison of the
+	// host names: it sorts above '.', '-' and the digits, which ranked
+	// *.foo.com:8080 before the more specific *.*.foo.com:8080 although
+	// *.*.foo.com comes before *.foo.com.
+	type hostPort struct{ host, port string }
+	rev := make(map[string]hostPort, len(hosts))
 	for _, h := range hosts {
-		rev[h] = ReverseHostPort(h)
+		rh, p := reverseHostPort(h)
+		rev[h] = hostPort{rh, p}
 	}
 	sort.Slice(hosts, func(i, j int) bool {
 		ri, rj := rev[hosts[i]], rev[hosts[j]]
-		if ri != rj {
-			return ri > rj
+		if ri.host != rj.host {
+			return ri.host > rj.host
+		}
+		if ri.port != rj.port {
+			return ri.port > rj.port
 		}
 		return hosts[i] > hosts[j]
 	})
@@ -420,6 +432,16 @@ func isHostPattern(host string) bool {
 // ReverseHostPort returns its argument string reversed rune-wise left to
 // right. If s includes a port, only the host part is reversed.
 func ReverseHostPort(s string) string {
+	h, p := reverseHostPort(s)
+	if p == "" {
+		return h
+	}
+	return net.JoinHostPort(h, p)
+}
+
+// reverseHostPort returns the host part of s reversed rune-wise
+// and the port. Without a port the whole string is the host part.
+func reverseHostPort(s string) (host, port string) {
 	h, p, _ := net.SplitHostPort(s)
 	if h == "" {
 		h = s
@@ -430,12 +452,7 @@ func ReverseHostPort(s string) string {
 	for i, j := 0, len(r)-1; i < len(r)/2; i, j = i+1, j-1 {
 		r[i], r[j] = r[j], r[i]
 	}
-
-	if p == "" {
-		return string(r)
-	} else {
-		return net.JoinHostPort(string(r), p)
-	}
+	return string(r), p
 }
 
 // Lookup finds a target url based on the current matcher and picker
